@@ -113,18 +113,20 @@ def gen_scenario(rng: random.Random, feat: dict | None = None) -> dict:
             n_at = rng.choice([2, 3, 3]) if feat.get("nest") else rng.choice([1, 1, 1, 2, 2, 3])
             ats = []
             for _ in range(n_at):
-                up = rng.choice(tasks)
+                # with future triggers every edge goes from a lower (or the same) task index to a higher one, the
+                # same task only backwards in time: no dependency cycle is possible
+                up = rng.choice(tasks[:tasks.index(rhs) + 1]) if feat.get("future") else rng.choice(tasks)
                 same_cycle_ok = tasks.index(up) < tasks.index(rhs) and up in members
                 r = rng.random()
                 a = {"task": up}
-                if same_cycle_ok and r < 0.6:
+                if feat.get("future") and up != rhs and up in members and rng.random() < 0.45:
+                    # future trigger a[+Pn] => b: b waits for a LATER instance of a (the runahead limit is
+                    # pushed out while b is pooled).  Never under an OR (see below).
+                    a["off"] = rng.choice([1, 1, 2, 3])
+                elif same_cycle_ok and r < 0.6:
                     a["off"] = 0
                 elif feat.get("abs") and r > (0.9 - 0.4 * (feat.get("abs") == "many")) and home[up] == si and rec.startswith("P"):
                     a["abs"] = 0
-                elif feat.get("future") and r < 0.75 and up != rhs and up in members:
-                    # future trigger a[+P1] => b: b waits for the NEXT instance of a (the runahead limit is
-                    # pushed out while b is pooled).  Never under an OR (see the note in gen_scenario's tail).
-                    a["off"] = rng.choice([1, 1, 2, 3])
                 else:
                     a["off"] = -rng.choice([1, 1, 1, 2])
                     if a["off"] == 0:
@@ -262,6 +264,12 @@ def gen_scenario(rng: random.Random, feat: dict | None = None) -> dict:
                 scn["tries"][t] = (n_ + 1) * (m_ + 1)
         scn["fail_rate"] = rng.choice([0.3, 0.5])
         scn["submit_fail_rate"] = rng.choice([0.0, 0.2, 0.3])
+        if feat.get("retry_delay"):
+            # non-zero retry delays under a virtual clock (3 s per main-loop iteration): a retrying task waits
+            # two iterations for its timer
+            scn["retry_delay"] = 5
+            scn["clock_step"] = 3
+            scn["max_ticks"] = 120
     if feat.get("bcast"):
         # broadcast commands (harmless settings: the jobs are played by the harness), to all cycles, to existing
         # cycles and to namespaces, set and cancelled, several within one main-loop iteration (one database flush)
@@ -336,8 +344,12 @@ def gen_scenario(rng: random.Random, feat: dict | None = None) -> dict:
     if feat.get("stop"):
         r = rng.random()
         tick = rng.randint(0, 8)
+        if feat.get("stop") == "point":
+            # always an early stop point strictly before the final point
+            r, tick = 0.0, rng.randint(0, 2)
         if r < 0.4:
-            scn["ops"].append({"tick": tick, "cmd": "stop", "args": {"mode": None, "cycle_point": str(rng.randint(icp, fcp))}})
+            scn["ops"].append({"tick": tick, "cmd": "stop", "args": {"mode": None, "cycle_point": str(
+                rng.randint(icp, max(icp, fcp - 1)) if feat.get("stop") == "point" else rng.randint(icp, fcp))}})
         elif r < 0.65:
             g = sorted(instance_graph(scn)["inst"])
             pnt, t = rng.choice(g)
@@ -396,9 +408,9 @@ def render_flow(scn, extra_sched="", extra_runtime=None) -> str:
             out.append(f"        {k} = {v}")
         if t in scn.get("retries", {}):
             n_, m_ = scn["retries"][t]
-            out.append(f"        execution retry delays = {n_}*PT0S")
+            out.append(f"        execution retry delays = {n_}*PT{scn.get('retry_delay', 0)}S")
             if m_:
-                out.append(f"        submission retry delays = {m_}*PT0S")
+                out.append(f"        submission retry delays = {m_}*PT{scn.get('retry_delay', 0)}S")
         if scn["customs"].get(t):
             out.append("        [[[outputs]]]")
             for c in scn["customs"][t]:
